@@ -366,6 +366,7 @@ func main() {
 			calls := map[string][]string{}
 			goStmts := []string{}
 			globalWrites := []string{}
+			receiverWrites := []string{} // Type_method:field for every assignment to a field of the receiver
 			fieldAccess := map[string][]string{} // selector name -> functions in which it is read or written
 			aliasAssign := []string{}            // func:field where a struct field is assigned directly from a slice-typed parameter
 			lockedFuncs := []string{}            // functions whose body starts with x.m.Lock(); defer x.m.Unlock()
@@ -546,6 +547,33 @@ func main() {
 									if rn, rt := enclosingRecv(stack); rn != "" && id.Name == rn && singles[rt] && base != l {
 										globalWrites = append(globalWrites, fn+":"+rt+"(singleton)")
 									}
+									if rn, _ := enclosingRecv(stack); rn != "" && id.Name == rn && base != l {
+										// which field of the receiver is written (first selector above the receiver)
+										fld := "?"
+										cur := l
+										for {
+											switch b := cur.(type) {
+											case *ast.IndexExpr:
+												cur = b.X
+												continue
+											case *ast.StarExpr:
+												cur = b.X
+												continue
+											case *ast.ParenExpr:
+												cur = b.X
+												continue
+											case *ast.SelectorExpr:
+												if x, ok := b.X.(*ast.Ident); ok && x.Name == rn {
+													fld = b.Sel.Name
+												} else {
+													cur = b.X
+													continue
+												}
+											}
+											break
+										}
+										receiverWrites = append(receiverWrites, fn+":"+fld)
+									}
 								}
 							}
 						}
@@ -619,6 +647,18 @@ func main() {
 			fmt.Fprintf(&b, "def fact_goStatements : List String := %s\n\n", q(goStmts))
 			fmt.Fprintf(&b, "def fact_globalWrites : List String := %s\n\n", q(globalWrites))
 			fmt.Fprintf(&b, "def fact_fixedArrays : List String := %s\n\n", q(fixedArrays(files, info)))
+			{
+				seen := map[string]bool{}
+				var u []string
+				for _, x := range receiverWrites {
+					if !seen[x] {
+						seen[x] = true
+						u = append(u, x)
+					}
+				}
+				sort.Strings(u)
+				fmt.Fprintf(&b, "def fact_receiverWrites : List String := %s\n\n", q(u))
+			}
 			fmt.Fprintf(&b, "def fact_aliasAssign : List String := %s\n\n", q(aliasAssign))
 			fmt.Fprintf(&b, "def fact_lockedFuncs : List String := %s\n\n", q(lockedFuncs))
 			uniq := func(xs []string) []string {
